@@ -90,6 +90,15 @@ func init() {
 		}
 		return false
 	})
+	reg(rtPkg+".LastWarnArgs", func(fr *frame, args []value) value {
+		evs := fr.i.path.events
+		for k := len(evs) - 1; k >= 0; k-- {
+			if evs[k].Kind == "astfmt.Sprintf" {
+				return append([]value(nil), evs[k].Args[1:]...)
+			}
+		}
+		return []value(nil)
+	})
 	reg(rtPkg+".TypeName", func(fr *frame, args []value) value {
 		it := fr.i.asIface(args[0])
 		if it.t == nil {
